@@ -15,6 +15,9 @@ for f in sorted(os.listdir(d)):
     elif f.endswith(".json"):
         c = json.load(open(os.path.join(d, f)))
         checks[c["property_id"]] = c
+# only the properties listed in enabled.txt are claimed (builders write their manifest.d entry early)
+enabled = set(open(os.path.join(d, "enabled.txt")).read().split())
+checks = {k: v for k, v in checks.items() if k in enabled}
 man = dict(head)
 man["engines"][0]["serves_properties"] = sorted(checks)
 man["checks"] = []
